@@ -50,6 +50,9 @@ CLAIMED = {
     'C14': ('DESIGN.md 4 C14', E1,
             'Per datagram built by the real packets(): octets == accounted size <= 8966, <= 1460 unless it holds a single entry, id / flags / TC rule, header counts == entries present, every entry read back (independent reader following compression pointers through symbolic offsets) with its own owner name, type, RDLENGTH and rdata names; over the sequence every entry exactly once in order - for messages of <= 7 entries whose TXT rdata lengths 0..8900 are solver variables.',
             'Trusted: as C01. Entries that cannot fit 8966 octets alone, and hundreds of entries, are outside.'),
+    'C15': ('DESIGN.md 4 C15', E1,
+            'Nothing escapes the real AsyncListener.datagram_received, and a canary query / announcement delivered afterwards still work, for datagrams whose payload octets are solver variables (plain templates and templates where a valid answerable question precedes the symbolic octets) from every source port; oversize guard for every length 0..70000; echo-safety lemma on the real label guards, confirmed on concrete bytes through the real listener.',
+            'Trusted: as C02. One adversarial datagram of bounded length per obligation; the 2 KB pointer-chain RecursionError is not reached. One known finding (legacy-unicast echo of an invalid-UTF-8 label) is listed in known_findings.json.'),
     'C16': ('DESIGN.md 4 C16', E1,
             'Metamorphic equivalence on each symbolic path: a history run with every datagram repeated dgap ms later (0..999) and the same history without repeats (identical random draws) produce identical multicast transmissions, browser callbacks and record-listener calls, and identical unicast replies except for a repeated QU reply; offsets, dgap, TTLs, sighting ages symbolic.',
             'Trusted: as C05; datagrams are opaque byte tokens mapped to prebuilt messages (the listener guard and dispatch are the real code); no loop-back of the host own multicast.'),
